@@ -27,10 +27,10 @@ CLANG_FLAGS.remove("-fno-exceptions-placeholder")
 RULES = [
     ("R1", "smooth/spline/detail/cumulative_spline_impl.hpp",
      r"for \(const auto & \[j, vj\] : utils::zip\(std::views::iota\(1u\), vs\)\) \{",
-     "for (unsigned j_verif_ = 1u; const auto & vj : vs) { const unsigned j = j_verif_++;", None),
+     "for (unsigned j_verif_ = 1u; const auto & vj : vs) { const unsigned j = j_verif_++;", 2),
     ("R2", "smooth/spline/detail/cumulative_spline_impl.hpp",
      r"for \(const auto & \[j, vj\] : utils::zip\(std::views::iota\(0u\), vs\)\) \{",
-     "for (unsigned j_verif_ = 0u; const auto & vj : vs) { const unsigned j = j_verif_++;", None),
+     "for (unsigned j_verif_ = 0u; const auto & vj : vs) { const unsigned j = j_verif_++;", 1),
 ]
 
 
